@@ -50,7 +50,9 @@ def header_coverage(ctx, s):
     for name, rng in fields.items():
         rf = ctx.fn("pocket_types::Event::" + name)
         rr = layout.reader_ranges(ctx, s, rf)
-        ok = rr == {rng} and rng in wr and rng in wj
+        # the field's range is read, and no other fixed range read by the accessor cuts across it
+        cuts = [r for r in rr if r != rng and r[0] < rng[1] and rng[0] < r[1] and not (r[0] <= rng[0] and rng[1] <= r[1])]
+        ok = rng in rr and not cuts and rng in wr and rng in wj
         s.add("S-LAYOUT", rf, "field-range", name, rf.sp, PROVED if ok else VIOLATION,
               "read from %s, written at the same range by from_parts and by the JSON parser" % (rng,) if ok else
               "accessor reads %s; from_parts writes %s; parser writes %s" % (sorted(rr), rng in wr, rng in wj))
